@@ -23,7 +23,7 @@ var witnesses = []struct {
 	kind string
 }{
 	{"C09-aggregate-not-nullable", "SELECT MAX(d), SUM(a), MIN(s) FROM t WHERE s = 'none'", vNull},
-	{"C09-outer-join-not-null", "SELECT t2.a FROM t LEFT JOIN t t2 ON ((t.a = t2.a) AND (1 = 0))", vNull},
+	{"C09-outer-join-not-null", "SELECT t2.a FROM t LEFT JOIN t t2 ON t.a = t2.a + 10", vNull},
 	{"C09-variance-type", "SELECT STDDEV_SAMP(a) FROM t", vChanged},
 	{"C09-arithmetic-result-type", "SELECT bu + d FROM t", vDigits},
 	{"C09-arithmetic-result-type", "SELECT -mi FROM t", vRange},
@@ -31,12 +31,6 @@ var witnesses = []struct {
 	{"C09-time-part-not-nullable", "SELECT MINUTE(s), SECOND('abc') FROM t", vNull},
 	{"C09-json-function-not-nullable", "SELECT JSON_KEYS(j) FROM t", vNull},
 	{"C09-function-reports-argument-type", "SELECT SUBSTRING(a, 5) FROM t", vKind},
-	{"C09-pad-multibyte", "SELECT RPAD('A', 3, '😀') FROM t", vCharset},
-	{"X1", "SELECT t2.a FROM t LEFT JOIN t t2 ON t.a = t2.a + 10", vNull},
-	{"X2", "SELECT t2.a FROM t LEFT JOIN t t2 ON ((t.a = t2.a) AND (t2.d = 5))", vNull},
-	{"X3", "SELECT t2.a FROM t LEFT JOIN t t2 ON (t.d = t2.d AND t2.a = 7)", vNull},
-	{"X4", "SELECT t2.s FROM t LEFT JOIN t t2 ON (t.d < t2.d)", vNull},
-	{"X5", "SELECT t.s FROM t t2 RIGHT JOIN t ON (t.d < t2.d)", vNull},
 	{"C09-union-decimal-overflow", "SELECT 3.4e38 UNION SELECT 1.5", vDigits},
 }
 
